@@ -236,6 +236,8 @@ type Exec struct {
 	allocFloor      int64   // ... but only those allocated so far: ids >= this value
 	lemmaFacts      []*Term // instances of proved lemmas met while instantiating another lemma
 	curCall         ssa.Value
+	returnSites     map[*ssa.Return][]*State
+	nilFreshFork    bool
 	curArgs         []Value
 	assertFired     map[string]bool
 	usedLemmas      map[string]bool
@@ -259,7 +261,7 @@ func NewExec(prog *Program, db *ContractDB, fn *ssa.Function, c *Contract, cfg s
 		typeIDs: map[string]int64{}, typeByID: map[int64]types.Type{}, loopCache: map[*ssa.Function][]*Loop{},
 		ordCache: map[*ssa.Function]map[ssa.Instruction]string{}, callOrd: map[*ssa.Function]map[ssa.Instruction]callName{},
 		maxPaths: 4096, trusted: map[string]bool{}, havocked: map[string]bool{}, inlined: map[string]bool{}, notes: map[string]bool{},
-		unrollBudget: 300, cfgVals: map[string]int64{}, globalsSeen: map[string]*Term{}, usedLemmas: map[string]bool{}, globLen: map[*ssa.Global]int64{}, globErr: map[*ssa.Global]bool{}, assertFired: map[string]bool{}, useBitAxioms: map[string]bool{}, usedSpecFns: map[string]bool{}, defFacts: map[*Term]bool{}}
+		unrollBudget: 300, cfgVals: map[string]int64{}, globalsSeen: map[string]*Term{}, usedLemmas: map[string]bool{}, globLen: map[*ssa.Global]int64{}, globErr: map[*ssa.Global]bool{}, assertFired: map[string]bool{}, returnSites: map[*ssa.Return][]*State{}, useBitAxioms: map[string]bool{}, usedSpecFns: map[string]bool{}, defFacts: map[*Term]bool{}}
 	if c != nil && c.Mode == "bits" {
 		x.mode = ModeBits
 	}
